@@ -181,6 +181,14 @@ def registry_snapshot():
         "pushbutton_events": sorted((str(k), q(c)) for k, c in pushbutton._PushbuttonEvent._event_classes.items()),
         "addrtypes": [q(c) for c in address.Address._addrtypes],
         "supported_devicetypes": sorted(command.Command._supported_devicetypes),
+        # class-level attributes that decoding consults or that drivers act on: decoding must not write to them
+        "class_flags": [[q(c), repr(getattr(c, "devicetype", None)), repr(getattr(c, "sendtwice", None)),
+                         q(c.response) if getattr(c, "response", None) is not None else None,
+                         repr(getattr(c, "_cmdval", None)), repr(getattr(c, "_opcode", None)),
+                         repr(getattr(c, "_hasparam", None)), repr(getattr(c, "_framesize", None)),
+                         repr(getattr(c, "_instance_type", None)), repr(getattr(c, "_event_info", None)),
+                         repr(getattr(c, "_addr", None)), repr(getattr(c, "_instance", None))]
+                        for c in command.Command._commands],
     }
     return hashlib.sha256(json.dumps(snap, sort_keys=True).encode()).hexdigest()
 
@@ -292,6 +300,107 @@ def _enum_shard(arg):
     return res
 
 
+# ------------------------------------------------- context sensitivity ----
+def context_ops():
+    """Things that may have happened just before a decode: every ENABLE DEVICE TYPE frame, special commands,
+    24-bit specials, events, application-extended frames under their device type, constructions."""
+    ops = [("decode", 16, 0xC100 | k, 0, "no") for k in range(256)]
+    for hi in (0xA1, 0xA3, 0xA5, 0xA7, 0xA9, 0xB1, 0xB7, 0xB9, 0xBB, 0xC3, 0xC5, 0xC7, 0xC9, 0xCB):
+        for lo in (0x00, 0x01, 0x06, 0x08, 0xFF):
+            ops.append(("decode", 16, (hi << 8) | lo, 0, "no"))
+    for dt in (1, 4, 5, 6, 8, 7, 255):
+        for lo in (0xE0, 0xE7, 0xF2, 0xFA, 0xFF):
+            ops.append(("decode", 16, 0xFF00 | lo, dt, "no"))
+            ops.append(("decode", 16, 0x0900 | lo, dt, "no"))
+    for v in (0xC13001, 0xC13108, 0xC10000, 0xC50102, 0xFFFE1D, 0x01FE30, 0x03003A, 0x028401, 0x068402, 0x800405, 0xC08001):
+        ops.append(("decode", 24, v, 0, "no"))
+        ops.append(("decode", 24, v, 0, 1))
+    for k in range(len(constructors())):
+        ops.append(("construct", k))
+    return ops
+
+
+def context_targets(quick, seed):
+    ts = []
+    his = (0x01, 0xFF, 0x85, 0xFD) if not quick else ((0x01, 0xFF) if seed % 2 else (0xFF, 0x85))
+    for hi in his:
+        for lo in list(range(0xE0, 0x100)) + [0x00, 0x20, 0x90, 0xA0, 0xC5]:
+            for dt in (0, 6, 8) if quick else (0, 1, 4, 5, 6, 7, 8):
+                ts.append((16, (hi << 8) | lo, dt, "no"))
+    for v in (0x068402, 0x0A8C05, 0xFFFE30, 0xC13005, 0x01FE1D):
+        for mp in ("no", 1, 3):
+            ts.append((24, v, 0, mp))
+    return ts
+
+
+def _ctx_shard(arg):
+    ctx_slice, quick, seed = arg
+    res = Result()
+    command, frame = _load()
+    cons = constructors()
+    targets = context_targets(quick, seed)
+    out = []
+
+    def dec(t):
+        bits, v, dt, mp = t
+        return decode_check(bits, v, dt, None if mp == "no" else mp, mp != "no", out)
+
+    # isolated fingerprints: each target decoded right after a neutral frame
+    iso = {}
+    for t in targets:
+        dec((16, 0x0000, 0, "no"))
+        c = dec(t)
+        iso[t] = fp(c) if c is not None else None
+    n = 0
+    for op in ctx_slice:
+        for t in targets:
+            if op[0] == "construct":
+                cons[op[1]]()
+            else:
+                dec(tuple(op[1:]))
+            c = dec(t)
+            n += 1
+            got = fp(c) if c is not None else None
+            if got != iso[t]:
+                case = {"kind": "context", "before": list(op), "target": list(t)}
+                res.violation("C01:decode-depends-on-previous-operation", case,
+                              "decode of %r gives %r in isolation but %r directly after %r" % (t, iso[t], got, op))
+                break
+        if out:
+            for sig, msg in out:
+                res.violation(sig, {"kind": "context", "before": list(op)}, msg)
+            del out[:]
+    res.count(n)
+    res.nontrivial(n=n)
+    res.label("context-pairs", n)
+    res.sample({"kind": "context", "before": list(ctx_slice[0]), "target": list(targets[3])}, cls="context pair")
+    purity_check(res, "after context shard")
+    return res
+
+
+def run_context(case):
+    out = []
+    cons = constructors()
+
+    def dec(t):
+        bits, v, dt, mp = t
+        return decode_check(bits, v, dt, None if mp == "no" else mp, mp != "no", out)
+    t = tuple(case["target"])
+    dec((16, 0x0000, 0, "no"))
+    c0 = dec(t)
+    a = fp(c0) if c0 is not None else None
+    op = case["before"]
+    if op[0] == "construct":
+        cons[op[1]]()
+    else:
+        dec(tuple(op[1:]))
+    c1 = dec(t)
+    b = fp(c1) if c1 is not None else None
+    if a != b:
+        out.append(("C01:decode-depends-on-previous-operation", "decode of %r gives %r in isolation but %r directly after %r" % (t, a, b, op)))
+    return out
+
+
 # ------------------------------------------------ Hypothesis histories ----
 def constructors():
     """A construction storm: things an application would build between decodes."""
@@ -388,6 +497,8 @@ def run_case(case):
         return out
     if kind == "history":
         return run_history(case["ops"])
+    if kind == "context":
+        return run_context(case)
     if kind == "purity":
         res = Result()
         if not _BASELINE:
@@ -438,6 +549,9 @@ def run(ctx):
     for k in range(0, len(odd), 8):
         shards.append(("odd", odd[k:k + 8]))
     ctx.pmap(_enum_shard, shards)
+    cops = context_ops()
+    per = (len(cops) + 15) // 16
+    ctx.pmap(_ctx_shard, [(cops[k:k + per], q, s) for k in range(0, len(cops), per)])
     n = 3000 if q else 40000
     ctx.pmap(_hyp_shard, [(s * 1000 + k, n // 16) for k in range(16)])
     ctx.result.exhaustive = False if q else True
